@@ -655,7 +655,8 @@ def collect_observables(eng, entry_locals, depth=3, limit=160):
             return
         s = v.sort
         if s in (REAL, INT, BOOL, ATOM):
-            out.append((path, s.name, [za(v.t) if s == ATOM else (zb(v.t) if s == BOOL else zr(v.t))]))
+            conc = isinstance(v.t, (int, bool, Atom)) or is_conc_num(v.t)
+            out.append((path, s.name + ("=const" if conc else ""), [za(v.t) if s == ATOM else (zb(v.t) if s == BOOL else zr(v.t))]))
         elif isinstance(s, Opt):
             isn, inner = v.t
             out.append((path + "?none", "Bool", [zb(isn)]))
